@@ -1,7 +1,10 @@
 #!/bin/bash
-# Runs the quick tier of the property each seeded change breaks (and C18, which sees most state leaks) against it.
+# Runs the quick tier of the property each seeded change breaks against it (scratch copies; /repo untouched)
+# and writes seeded/<id>/result-<prop>.txt; then regenerates seeded/README.md.
 cd /verif
 for d in seeded/S*; do
+  [ -f $d/meta.json ] || continue
   prop=$(/venv/bin/python -c "import json,sys; print(json.load(open('$d/meta.json'))['breaks_property'])")
   echo "=== $d ($prop)"; tools/mutant.sh $d/patch.diff $prop > $d/result-$prop.txt 2>&1; tail -1 $d/result-$prop.txt
 done
+/venv/bin/python tools/seeded_readme.py
